@@ -101,27 +101,27 @@ example : shapeOk (blockPhase sampleCfg (gasBound sampleCfg (docLines sampleDoc)
 
 /-- `C01_block_no_raise` is not vacuous: with too little gas the model does report an error, and
     it is `.fuel` -/
-example : blockPhase sampleCfg 19 sampleDoc = .err .fuel := by
-  cases h : blockPhase sampleCfg 19 sampleDoc with
+example : blockPhase sampleCfg 27 sampleDoc = .err .fuel := by
+  cases h : blockPhase sampleCfg 27 sampleDoc with
   | err e =>
-    rw [C01_block_no_raise sampleCfg 19 sampleDoc e (by
+    rw [C01_block_no_raise sampleCfg 27 sampleDoc e (by
       intro s hs; apply C13.nlEnd_of_check; revert s; decide) h]
   | ok r =>
     exfalso
-    have : (blockPhase sampleCfg 19 sampleDoc).isOk = false := by decide +kernel
+    have : (blockPhase sampleCfg 27 sampleDoc).isOk = false := by decide +kernel
     rw [h] at this; cases this
 
-/-- `C01_block_gas_mono` on the sample: 20 units of gas already give the result; so does any more -/
-example : shapeOk (blockPhase sampleCfg 20 sampleDoc) = true := by decide +kernel
+/-- `C01_block_gas_mono` on the sample: 28 units of gas already give the result; so does any more -/
+example : shapeOk (blockPhase sampleCfg 28 sampleDoc) = true := by decide +kernel
 
-example (g : Nat) (hg : 20 ≤ g) : shapeOk (blockPhase sampleCfg g sampleDoc) = true := by
-  cases h : blockPhase sampleCfg 20 sampleDoc with
+example (g : Nat) (hg : 28 ≤ g) : shapeOk (blockPhase sampleCfg g sampleDoc) = true := by
+  cases h : blockPhase sampleCfg 28 sampleDoc with
   | err e =>
-    have : shapeOk (blockPhase sampleCfg 20 sampleDoc) = true := by decide +kernel
+    have : shapeOk (blockPhase sampleCfg 28 sampleDoc) = true := by decide +kernel
     rw [h] at this; cases this
   | ok r =>
-    rw [C01_block_gas_mono sampleCfg sampleDoc r 20 g hg h]
-    have : shapeOk (blockPhase sampleCfg 20 sampleDoc) = true := by decide +kernel
+    rw [C01_block_gas_mono sampleCfg sampleDoc r 28 g hg h]
+    have : shapeOk (blockPhase sampleCfg 28 sampleDoc) = true := by decide +kernel
     rw [h] at this; exact this
 
 /-- `C01_block_document` on a concrete string -/
